@@ -1555,26 +1555,54 @@ def loop_element_paths(body, header, marks, limit=4000):
             return env.get(op['pl']['l'])
         return None
 
-    def walk(bb, env, conds, seen, hit):
+    eb = ExprBuilder(body)
+
+    def path_cond(bb, tg, src):
+        """condition of the edge bb->tg; for a switch on a bool local defined on THIS path the expression is taken
+        from the defining statement / call of the path (not the flow-insensitive merge)"""
+        t = body.blocks[bb]['t']
+        d = t['discr']
+        if t['ty'] == 'bool' and d['k'] in ('copy', 'move') and not d['pl']['p'] and d['pl']['l'] in src:
+            sb, si = src[d['pl']['l']]
+            if si == 'term':
+                e = eb._call(body.call_at(sb), (), 0)
+            else:
+                e = eb._rvalue(body.blocks[sb]['st'][si]['rv'], (), 0, (sb, si))
+            vals = [val for val, x in body.switch_edges(bb) if x == tg]
+            truth = False if ('0' in vals and None not in vals) else True
+            if e.kind != 'phi':
+                return _ExprCond(e, truth, t.get('ln', ''))
+        return Cond(body, bb, tg)
+
+    def walk(bb, env, conds, seen, hit, src=None):
         if count[0] > limit:
             return
         env = dict(env)
+        src = dict(src or {})
         hit = hit or bb in marks
-        for s in body.blocks[bb]['st']:
+        for si, s in enumerate(body.blocks[bb]['st']):
             if s['k'] != 'assign' or s['lhs']['p']:
                 continue
             l = s['lhs']['l']
             rv = s['rv']
             if rv['k'] == 'use':
                 env[l] = bval(env, rv['op'])
+                op = rv['op']
+                if op['k'] in ('copy', 'move') and not op['pl']['p'] and op['pl']['l'] in src:
+                    src[l] = src[op['pl']['l']]
+                else:
+                    src[l] = (bb, si)
             elif rv['k'] == 'un' and rv['op'] == 'Not':
                 v = bval(env, rv['a'])
                 env[l] = (not v) if isinstance(v, bool) else None
+                src[l] = (bb, si)
             else:
                 env[l] = None
+                src[l] = (bb, si)
         t = body.blocks[bb]['t']
         if t['k'] == 'call' and not t['dest']['p']:
             env[t['dest']['l']] = None
+            src[t['dest']['l']] = (bb, 'term')
         nxt = []
         if t['k'] == 'switch':
             v = bval(env, t['discr']) if t['ty'] == 'bool' else None
@@ -1594,15 +1622,15 @@ def loop_element_paths(body, header, marks, limit=4000):
                         continue
                     nxt.append((tg, conds))
                 else:
-                    nxt.append((tg, conds + [Cond(body, bb, tg)]))
+                    nxt.append((tg, conds + [path_cond(bb, tg, src)]))
         else:
-            nxt = [(s, conds) for s in succ[bb]]
+            nxt = [(s_, conds) for s_ in succ[bb]]
         for tg, cs in nxt:
             if tg == header or tg not in blks:
                 count[0] += 1
                 out.append((cs, hit))
             elif tg not in seen:
-                walk(tg, env, cs, seen | {tg}, hit)
+                walk(tg, env, cs, seen | {tg}, hit, src)
 
     walk(start, {}, [], {start}, False)
     return out
